@@ -216,6 +216,8 @@ structure Core where
   publicAddress : Option Addr := none
   firewalled : Bool := true
   serverMode : Bool
+  /-- `ServerSettings::filter` (the default filter allows everything) -/
+  allow : Allow := fun _ _ => true
 
 /-- what the node does to its environment -/
 inductive Sender where
@@ -504,13 +506,15 @@ def verifySelfPing (c : Core) (src : Addr) (req : Request) (now : Nat) : Core ×
 def serveRequest (c : Core) (env : Env) (src : Addr) (req : Request) (repopulate : Bool) :
     Core × Option Reply × Bool :=
   if c.serverMode then
-    ({ c with server := (c.server.handleRequest env.verify (fun _ _ => true) c.rt c.srt src env.now env.wall req).1 },
-     (c.server.handleRequest env.verify (fun _ _ => true) c.rt c.srt src env.now env.wall req).2, repopulate)
+    ({ c with server := (c.server.handleRequest env.verify c.allow c.rt c.srt src env.now env.wall req).1 },
+     (c.server.handleRequest env.verify c.allow c.rt c.srt src env.now env.wall req).2, repopulate)
   else (c, none, repopulate)
 
 /-- `Core::handle_request` -/
 def handleRequest (c : Core) (env : Env) (src : Addr) (ro : Bool) (version : Option Bytes) (req : Request) :
     Core × Option Reply × Bool :=
+  -- a request vetoed by the request filter is dropped before it can have any effect
+  if !c.allow req src then (c, none, false) else
   serveRequest (verifySelfPing (maybeAddNodeFromRequest c src version ro req env.now) src req env.now).1 env src req
     (verifySelfPing (maybeAddNodeFromRequest c src version ro req env.now) src req env.now).2
 
@@ -969,6 +973,8 @@ structure NodeConfig where
   /-- the socket's transaction id counter starts here (0 in production; the harness moves it to
       exercise the wrap-around) -/
   firstTid : Nat := 0
+  /-- a request filter that vetoes every request from this IP (`None`: the default filter) -/
+  denyIp : Option UInt32 := none
 
 /-- `Actor::new` followed by the first maintenance; `seed` is the thread's random stream -/
 def Actor.create (cfg : NodeConfig) (seed : UInt64) (now : Nat) : Actor :=
@@ -977,7 +983,10 @@ def Actor.create (cfg : NodeConfig) (seed : UInt64) (now : Nat) : Actor :=
     | none => let (b, r) := rngFill 20 seed; ((⟨b⟩ : Id), r)
   let server := Server.new cfg.caps.1 cfg.caps.2.1 cfg.caps.2.2.1 cfg.caps.2.2.2 rng now
   let core : Core := { bootstrap := cfg.bootstrap, rt := { id }, srt := { id }, lastRefresh := now,
-                       lastPing := now, server, serverMode := cfg.serverMode }
+                       lastPing := now, server, serverMode := cfg.serverMode,
+                       allow := match cfg.denyIp with
+                         | some ip => fun _ src => src.ip != ip
+                         | none => fun _ _ => true }
   let a : Actor := { sockServerMode := cfg.serverMode, core, sock := { nextTid := cfg.firstTid % two32 } }
   let a := a.maintenance now
   { a with sock := a.sock.cleanup now }
